@@ -165,3 +165,23 @@ prop('C03',
      level_note='Trusted: Lean kernel, standard axioms, harness (raw-builder substitution, label bookkeeping). Modelled not verified: load_grammar compilation, the engines\' search for a derivation (C01/C02).',
      technique='Lean 4 structural-induction proof (code = documented shaping) over derivation forests + translation-validation style comparison on raw derivations from the real engines',
      design_ref='DESIGN.md §5 C03')
+
+prop('C13',
+     modules=['LarkVerif.Shape', 'LarkVerif.Heap', 'LarkVerif.LR', 'LarkVerif.LRComplete', 'LarkVerif.Props.C13'],
+     theorems=['Props.C13.denotation_frame', 'Props.C13.fork_independent', 'Props.C13.in_place_adoption_is_pure', 'Props.C13.feed_then_eof_eq_parse', 'Props.C13.resume_eq_parse'],
+     fingerprints=['lark/parsers/lalr_parser_state.py:ParserState.copy', 'lark/parsers/lalr_parser_state.py:ParserState.feed_token', 'lark/parsers/lalr_interactive_parser.py:InteractiveParser.copy',
+                   'lark/parsers/lalr_interactive_parser.py:InteractiveParser.as_immutable', 'lark/parsers/lalr_interactive_parser.py:InteractiveParser.accepts', 'lark/parse_tree_builder.py:ChildFilterLALR.__call__',
+                   'lark/tree.py:Tree.__deepcopy__'],
+     rule='random feature-rich LALR grammars (C03 generator) x propagate_positions/maybe_placeholders/keep_all_tokens; 3 token sequences sharing prefixes (a sampled sentence and mutations); a random tree of 6-22 operations over '
+          'interactive parsers: feed_token (in place / ImmutableInteractiveParser.feed_token), copy(), as_immutable(), as_mutable(), switching a fork to another sequence with the same consumed prefix, accepts() vs trial feeding of '
+          'every terminal; then every cursor is finished in random order (immutable ones twice, after all others ran). Every result (tree with all meta fields incl. container_*) or error index must equal parse() of the cursor\'s own '
+          'sequence. Non-trivial = more than 2 cursors; distinct by canonical hash of the operation log.',
+     not_proved=['that copy() (deep copy of the value stack) establishes the disjointness hypothesis of fork_independent is observed (results compared), not proved; Tree meta sharing was the one violation (F10, fixed)',
+                 'accepts() exactness is compared with trial feeding here and with the model driver in the C02 check'],
+     assumptions=['copy.deepcopy on lists/Trees/Tokens copies every reachable mutable list'],
+     level_text='Theorems (heap model with mutable child lists): a state\'s denotation depends only on reachable list objects; an in-place extension of a child list by one fork leaves every fork with disjoint reachable objects '
+                'unchanged and gives the reducing fork exactly the pure tree; feeding token by token then $END is parse; resuming after a shifted prefix equals the parse of the whole sequence. The real interactive parsers are driven '
+                'through random fork trees and every leaf compared with parse().',
+     level_note='Trusted: Lean kernel, standard axioms, harness. Modelled not verified: copy.deepcopy, Python object identity.',
+     technique='Lean 4 frame/separation lemmas over an explicit heap of mutable lists + pure LR driver; randomised fork-tree differential testing against parse()',
+     design_ref='DESIGN.md §5 C13')
